@@ -128,7 +128,12 @@ func NewCollector(known *Findings, replayDir string) *Collector {
 // property|kind|call-site:symptom|config class|tags.
 func SigsOf(v Violation) []string {
 	var out []string
-	for _, a := range v.Atoms {
+	atoms := v.Atoms
+	if len(atoms) == 0 {
+		// never drop a violation because its producer named no atom
+		atoms = []string{v.What}
+	}
+	for _, a := range atoms {
 		out = append(out, fmt.Sprintf("%s|%s|%s|%s|%s", v.Prop, v.Kind, a, CfgClass(v.Cfg), strings.Join(v.Tags, ",")))
 	}
 	return out
